@@ -414,4 +414,163 @@ theorem firstFailure_none_of_lookup (vis : List String) (rs : List (String × MR
     | out t => rfl
     | err e => cases this
 
+/-! ### choosing loops -/
+
+/-- two entries the choosing loop may meet in either order: the length the loop reads off a
+    candidate is the length it read when the entry was visited, at most one of them ends the
+    loop, and if both qualify their lengths differ -/
+def SelCompat (exact ok : α → Bool) (lenNew lenCur : α → Nat) (a b : α) : Prop :=
+  lenNew a = lenCur a ∧ lenNew b = lenCur b ∧ ¬ (exact a = true ∧ exact b = true) ∧
+  (ok a = true → ok b = true → lenNew a ≠ lenNew b)
+
+theorem SelCompat.symm {exact ok : α → Bool} {lenNew lenCur : α → Nat} {a b : α}
+    (h : SelCompat exact ok lenNew lenCur a b) : SelCompat exact ok lenNew lenCur b a :=
+  ⟨h.2.1, h.1, fun hh => h.2.2.1 ⟨hh.2, hh.1⟩, fun hb ha => Ne.symm (h.2.2.2 ha hb)⟩
+
+theorem selStep_comm (exact ok : α → Bool) (lenNew lenCur : α → Nat) (s : Sel α) (x y : α)
+    (h : SelCompat exact ok lenNew lenCur x y) :
+    selStep exact ok lenNew lenCur (selStep exact ok lenNew lenCur s x) y =
+      selStep exact ok lenNew lenCur (selStep exact ok lenNew lenCur s y) x := by
+  obtain ⟨hx, hy, hex, hlen⟩ := h
+  cases s with
+  | done a => rfl
+  | cand best =>
+    cases best <;> simp only [selStep] <;> grind
+
+/-- the choosing loop does not depend on the visiting order of pairwise compatible entries -/
+theorem selectLoop_perm (exact ok : α → Bool) (lenNew lenCur : α → Nat) {vis₁ vis₂ : List α}
+    (h : vis₁.Perm vis₂) (hp : vis₁.Pairwise (SelCompat exact ok lenNew lenCur)) :
+    selectLoop exact ok lenNew lenCur vis₁ = selectLoop exact ok lenNew lenCur vis₂ := by
+  unfold selectLoop
+  exact foldl_perm_of_comm _ (SelCompat exact ok lenNew lenCur) (fun h => h.symm)
+    (fun s x y hxy => selStep_comm exact ok lenNew lenCur s x y hxy) h hp _
+
+/-- what the loop holds after a stretch without an exact match: the candidate is the old one or a
+    qualifying visited entry, it is at least as long as the old one and as every qualifying
+    visited entry -/
+theorem selectLoop_cand (exact ok : α → Bool) (lenNew lenCur : α → Nat) (l : List α) (b : Option α)
+    (hne : ∀ x ∈ l, exact x = false) (hl : ∀ x ∈ l, lenNew x = lenCur x) :
+    ∃ b', l.foldl (selStep exact ok lenNew lenCur) (.cand b) = .cand b' ∧
+      (∀ m, b' = some m → (b = some m ∨ (m ∈ l ∧ ok m = true))) ∧
+      (∀ m0, b = some m0 → ∃ m, b' = some m ∧ lenCur m0 ≤ lenCur m) ∧
+      (∀ k ∈ l, ok k = true → ∃ m, b' = some m ∧ lenNew k ≤ lenCur m) := by
+  induction l generalizing b with
+  | nil => exact ⟨b, rfl, fun m hm => Or.inl hm, fun m0 hm0 => ⟨m0, hm0, Nat.le_refl _⟩, by simp⟩
+  | cons x l ih =>
+    have hx : exact x = false := hne x (List.mem_cons_self ..)
+    have hlx : lenNew x = lenCur x := hl x (List.mem_cons_self ..)
+    have hne' : ∀ y ∈ l, exact y = false := fun y hy => hne y (List.mem_cons_of_mem _ hy)
+    have hl' : ∀ y ∈ l, lenNew y = lenCur y := fun y hy => hl y (List.mem_cons_of_mem _ hy)
+    simp only [List.foldl_cons]
+    by_cases ox : ok x = true
+    · cases b with
+      | none =>
+        have e : selStep exact ok lenNew lenCur (.cand none) x = .cand (some x) := by
+          simp [selStep, hx, ox]
+        rw [e]
+        obtain ⟨b', h1, h2, h3, h4⟩ := ih (some x) hne' hl'
+        refine ⟨b', h1, ?_, by simp, ?_⟩
+        · intro m hm
+          rcases h2 m hm with h | ⟨h, h'⟩
+          · cases h; exact Or.inr ⟨List.mem_cons_self .., ox⟩
+          · exact Or.inr ⟨List.mem_cons_of_mem _ h, h'⟩
+        · intro k hk okk
+          cases hk with
+          | head => obtain ⟨m, hm, hle⟩ := h3 x rfl; exact ⟨m, hm, by omega⟩
+          | tail _ hk => exact h4 k hk okk
+      | some m0 =>
+        by_cases hgt : lenNew x > lenCur m0
+        · have e : selStep exact ok lenNew lenCur (.cand (some m0)) x = .cand (some x) := by
+            simp [selStep, hx, ox, hgt]
+          rw [e]
+          obtain ⟨b', h1, h2, h3, h4⟩ := ih (some x) hne' hl'
+          refine ⟨b', h1, ?_, ?_, ?_⟩
+          · intro m hm
+            rcases h2 m hm with h | ⟨h, h'⟩
+            · cases h; exact Or.inr ⟨List.mem_cons_self .., ox⟩
+            · exact Or.inr ⟨List.mem_cons_of_mem _ h, h'⟩
+          · intro m1 hm1
+            cases hm1
+            obtain ⟨m, hm, hle⟩ := h3 x rfl
+            exact ⟨m, hm, by omega⟩
+          · intro k hk okk
+            cases hk with
+            | head => obtain ⟨m, hm, hle⟩ := h3 x rfl; exact ⟨m, hm, by omega⟩
+            | tail _ hk => exact h4 k hk okk
+        · have e : selStep exact ok lenNew lenCur (.cand (some m0)) x = .cand (some m0) := by
+            simp [selStep, hx, ox, hgt]
+          rw [e]
+          obtain ⟨b', h1, h2, h3, h4⟩ := ih (some m0) hne' hl'
+          refine ⟨b', h1, ?_, h3, ?_⟩
+          · intro m hm
+            rcases h2 m hm with h | ⟨h, h'⟩
+            · exact Or.inl h
+            · exact Or.inr ⟨List.mem_cons_of_mem _ h, h'⟩
+          · intro k hk okk
+            cases hk with
+            | head => obtain ⟨m, hm, hle⟩ := h3 m0 rfl; exact ⟨m, hm, by omega⟩
+            | tail _ hk => exact h4 k hk okk
+    · have e : selStep exact ok lenNew lenCur (.cand b) x = .cand b := by
+        simp [selStep, hx, ox]
+      rw [e]
+      obtain ⟨b', h1, h2, h3, h4⟩ := ih b hne' hl'
+      refine ⟨b', h1, ?_, h3, ?_⟩
+      · intro m hm
+        rcases h2 m hm with h | ⟨h, h'⟩
+        · exact Or.inl h
+        · exact Or.inr ⟨List.mem_cons_of_mem _ h, h'⟩
+      · intro k hk okk
+        cases hk with
+        | head => exact absurd okk ox
+        | tail _ hk => exact h4 k hk okk
+
+/-- once the loop has returned, the rest of the visiting order is not looked at -/
+theorem foldl_selStep_done (exact ok : α → Bool) (lenNew lenCur : α → Nat) (l : List α) (a : α) :
+    l.foldl (selStep exact ok lenNew lenCur) (.done a) = .done a := by
+  induction l with
+  | nil => rfl
+  | cons x l ih => simpa [List.foldl_cons, selStep] using ih
+
+/-! ### byte-string prefixes -/
+
+theorem hasPrefixB_eq_of_length : ∀ (p a b : List Nat), hasPrefixB p a = true → hasPrefixB p b = true →
+    a.length = b.length → a = b
+  | _, [], [], _, _, _ => rfl
+  | _, [], _ :: _, _, _, h => by simp at h
+  | _, _ :: _, [], _, _, h => by simp at h
+  | [], _ :: _, _ :: _, h, _, _ => by simp [hasPrefixB] at h
+  | x :: p, y :: a, z :: b, ha, hb, hl => by
+    simp only [hasPrefixB, Bool.and_eq_true, beq_iff_eq] at ha hb
+    simp only [List.length_cons, Nat.add_right_cancel_iff] at hl
+    rw [← ha.1, ← hb.1, hasPrefixB_eq_of_length p a b ha.2 hb.2 hl]
+
+theorem hasPrefixB_length : ∀ (p k : List Nat), hasPrefixB p k = true → k.length ≤ p.length
+  | _, [], _ => by simp
+  | [], _ :: _, h => by simp [hasPrefixB] at h
+  | _ :: p, _ :: k, h => by
+    simp only [hasPrefixB, Bool.and_eq_true] at h
+    have := hasPrefixB_length p k h.2
+    simp only [List.length_cons]; omega
+
+/-! ### hash keys of values -/
+
+theorem hvKey_nan (v : HV) : v.key.nan = v.isNaN := by cases v <;> rfl
+
+theorem insertBy_map (f : α → β) (le : β → β → Bool) (a : α) (l : List α) :
+    (insertBy (fun x y => le (f x) (f y)) a l).map f = insertBy le (f a) (l.map f) := by
+  induction l with
+  | nil => rfl
+  | cons b l ih =>
+    simp only [insertBy, List.map_cons]
+    split
+    · rfl
+    · simp only [List.map_cons, ih]
+
+/-- sorting by a key and then taking the keys is sorting the keys -/
+theorem isort_map (f : α → β) (le : β → β → Bool) (l : List α) :
+    (isort (fun x y => le (f x) (f y)) l).map f = isort le (l.map f) := by
+  induction l with
+  | nil => rfl
+  | cons a l ih => simp only [isort, List.map_cons, insertBy_map, ih]
+
 end Risor.C05
